@@ -17,7 +17,6 @@ package internal
 import (
 	"errors"
 	"iter"
-	"maps"
 	"net/http"
 	"net/textproto"
 	"strconv"
@@ -118,8 +117,18 @@ func cacheControlValue(header http.Header) string {
 
 // parseDirectives parses a string of cache directives and returns a map
 // where the keys are the directive names and the values are the arguments.
+//
+// When a directive is given more than once, the first occurrence is used
+// (RFC 9111 §4.2.1) - with one exception: "no-cache" without an argument, the
+// stricter form, is not undone by a qualified no-cache next to it.
 func parseDirectives(s string) map[string]string {
-	return maps.Collect(directivesSeq2(s))
+	d := make(map[string]string)
+	for key, value := range directivesSeq2(s) {
+		if _, dup := d[key]; !dup || (key == "no-cache" && value == "") {
+			d[key] = value
+		}
+	}
+	return d
 }
 
 func hasToken(d map[string]string, token string) bool {
